@@ -458,6 +458,7 @@ class FT:
         self.ret = self.new('RET')
         self.modroot = self.new('MODULE')
         self.groot = self.new('GLOBAL_RNG')
+        self.osite = self.new('OWNED')
         self.selfvar = None
         self.clsname = None
         self.slotroot = {}
@@ -1429,3 +1430,257 @@ def public_fids(prog):
     return pub
 
 
+
+
+# ----------------------------------------------------------------------------------------------
+# points-to solver, summaries and a python mirror of the Coq checker.  NOTHING here is trusted:
+# the solutions and summaries are emitted as hints and re-validated by Coq ([valid_hints],
+# [summary_ok], [check_fun]); the mirror only produces diagnostics and the slot classification.
+# ----------------------------------------------------------------------------------------------
+def expand_call(sm, x, args, new=False):
+    def argn(i):
+        return [args[i]] if i < len(args) else []
+    out = [('Fresh', x)]
+    for i in sm['mut']:
+        out += [('Mutate', a) for a in argn(i)]
+    for i in sm['ret']:
+        for a in argn(i):
+            out += [('Assign', x, a), ('Store', x, a)]
+    for i, j in sm['lnk']:
+        out += [('Store', a, b) for a in argn(i) for b in argn(j)]
+    if sm['rng']:
+        out.append(('GlobalRng',))
+    for i in sm['drw']:
+        out += [('Draw', a) for a in argn(i)]
+    for g, i in sm['sw']:
+        if not (new and i == 0):
+            out += [('StateWrite', g, a) for a in argn(i)]
+    for g, i in sm['sr']:
+        if not (new and i == 0):
+            out += [('StateRead', g, a) for a in argn(i)]
+    return out
+
+
+def prims(S, body):
+    out = []
+    for st in body:
+        if st[0] in ('Call', 'CallNew'):
+            if st[2] not in S:
+                return None
+            out += expand_call(S[st[2]], st[1], st[3], st[0] == 'CallNew')
+        else:
+            out.append(st)
+    return out
+
+
+def solve(P, pt0, cont0):
+    pt = {k: set(v) for k, v in pt0.items()}
+    cont = {k: set(v) for k, v in cont0.items()}
+    flow = [s for s in P if s[0] in ('Fresh', 'Assign', 'Store')]
+    changed = True
+    while changed:
+        changed = False
+        for s in flow:
+            if s[0] == 'Fresh':
+                d = pt.setdefault(s[1], set())
+                if s[1] not in d:
+                    d.add(s[1])
+                    changed = True
+            elif s[0] == 'Assign':
+                src = pt.get(s[2])
+                if not src:
+                    continue
+                add = set(src)
+                for o in src:
+                    add |= cont.get(o, set())
+                d = pt.setdefault(s[1], set())
+                if not add <= d:
+                    d |= add
+                    changed = True
+            else:
+                src = pt.get(s[2])
+                tgt = pt.get(s[1])
+                if not src or not tgt:
+                    continue
+                add = set(src)
+                for o in src:
+                    add |= cont.get(o, set())
+                for o in tgt:
+                    d = cont.setdefault(o, set())
+                    if not add <= d:
+                        d |= add
+                        changed = True
+        for o in list(cont):
+            d = cont[o]
+            add = set()
+            for o2 in d:
+                add |= cont.get(o2, set())
+            if not add <= d:
+                d |= add
+                changed = True
+    return pt, cont
+
+
+def solve_collapsed(f, P):
+    ps, os_, g = f['psite'], f['osite'], f['grng']
+    pt0 = {p: {ps} for p in f['params']}
+    pt0.update({o: {os_} for o in f['owned']})
+    pt0[g] = {g}
+    return solve(P, pt0, {ps: {ps}, os_: {os_}, g: {g}})
+
+
+def solve_roots(f, P):
+    roots = [v for fm in f['formals'] for v in fm]
+    return solve(P, {r: {r} for r in roots}, {r: {r} for r in roots})
+
+
+def summary_of(S, f):
+    P = prims(S, f['body'])
+    if P is None:
+        return None, None
+    pt, cont = solve_roots(f, P)
+
+    def clo(roots):
+        out = set(roots)
+        for r in roots:
+            out |= cont.get(r, set())
+        return out
+
+    priv = {v for _, v in f['slots']}
+    pos = range(len(f['formals']))
+    rs = [clo(fm) for fm in f['formals']]
+    rsp = [clo([v for v in fm if v not in priv]) for fm in f['formals']]
+    scl = [(g, clo([v])) for g, v in f['slots']]
+    g = f['grng']
+    sw, sr = [], []
+    for s in P:
+        if s[0] == 'StateWrite':
+            sw += [(s[1], i) for i in pos if pt.get(s[2], set()) & rs[i]]
+        elif s[0] == 'Mutate':
+            sw += [(gn, 0) for gn, c in scl if pt.get(s[1], set()) & c]
+        elif s[0] == 'StateRead':
+            sr += [(s[1], i) for i in pos if pt.get(s[2], set()) & rs[i]]
+    retr = clo(pt.get(f['ret'], set()))
+    sm = dict(
+        mut=[i for i in pos if any(s[0] == 'Mutate' and pt.get(s[1], set()) & rsp[i] for s in P)],
+        ret=[i for i in pos if retr & rs[i]],
+        lnk=[(i, j) for i in pos for j in pos if i != j and
+             set().union(*([cont.get(r, set()) for r in f['formals'][i]] or [set()])) & set(f['formals'][j])],
+        rng=any(s[0] == 'GlobalRng' or (s[0] == 'Draw' and g in pt.get(s[1], set())) for s in P),
+        drw=[i for i in pos if any(s[0] == 'Draw' and pt.get(s[1], set()) & rs[i] for s in P)],
+        sw=sorted(set(sw)), sr=sorted(set(sr)))
+    return sm, (pt, cont)
+
+
+def check_fun(wl, rd, allow_g, S, f, names=None):
+    """mirror of Coq's check_fun: returns (reasons, solution); empty reasons = accepted"""
+    P = prims(S, f['body'])
+    if P is None:
+        return ['a callee has no summary (recursion or failed translation)'], None
+    pt, cont = solve_collapsed(f, P)
+    nm = (lambda v: f"{names[v]}#{v}") if names else str
+    ps, g = f['psite'], f['grng']
+    why = []
+    for o in f['owned']:
+        if ps in pt.get(o, set()) or any(ps in cont.get(t, set()) for t in pt.get(o, set())):
+            why.append(f"private state {nm(o)} may come to hold or reference caller memory")
+    for s in P:
+        k = s[0]
+        if k == 'Mutate' and ps in pt.get(s[1], set()):
+            why.append(f"write through {nm(s[1])}, which may be (part of) an argument / module state")
+        elif k == 'GlobalRng':
+            why.append("draw from numpy's global / an unseeded generator")
+        elif k == 'Draw' and not allow_g and g in pt.get(s[1], set()):
+            why.append(f"draw from {nm(s[1])}, which may be numpy's global generator (rng not passed on)")
+        elif k == 'StateWrite' and s[1] not in wl and ps in pt.get(s[2], set()):
+            why.append(f"state slot {s[1]} of {nm(s[2])} (caller's object / module) is written")
+        elif k == 'StateRead' and s[1] not in rd and ps in pt.get(s[2], set()):
+            why.append(f"mutable state slot {s[1]} of {nm(s[2])} (caller's object / module) is read")
+    return sorted(set(why)), (pt, cont)
+
+
+def seed_plumbed(S, f, sol):
+    P = prims(S, f['body'])
+    if P is None or sol is None:
+        return False
+    pt = sol[0]
+    for s in P:
+        if s[0] == 'GlobalRng':
+            return False
+        if s[0] == 'Draw':
+            d = pt.get(s[1], set())
+            if f['grng'] in d or not (f['psite'] in d or f['osite'] in d):
+                return False
+    return True
+
+
+# ----------------------------------------------------------------------------------------------
+# whole-program translation
+# ----------------------------------------------------------------------------------------------
+def translate_all(repo):
+    prog = Program(repo)
+    util_lists = eval_const_lists(prog, 'util')
+    columns = {c for v in util_lists.values() for c in v} | {'dt'}
+    slotinfo = {}
+    for rnd in range(8):
+        fts = {}
+        todo = list(prog.funcs.values())
+        while todo:
+            fi = todo.pop(0)
+            ft = FT(prog, fi, slotinfo, columns).run()
+            fts[fi.fid] = ft
+            todo += ft.nested_infos
+        order, state = [], {}
+
+        def visit(fid, stack):
+            if state.get(fid) == 2:
+                return
+            if state.get(fid) == 1:
+                raise Unsupported("recursion: " + ' -> '.join(stack + [fid]))
+            state[fid] = 1
+            for c in fts[fid].callees:
+                visit(c, stack + [fid])
+            state[fid] = 2
+            order.append(fid)
+
+        for fid in fts:
+            visit(fid, [])
+        funcs = {}
+        for fid in order:
+            ft = fts[fid]
+            funcs[fid] = dict(params=ft.f_params, owned=ft.f_owned, grng=ft.groot, psite=ft.modroot,
+                              osite=ft.osite, formals=ft.f_formals, slots=ft.f_slots, body=ft.stmts,
+                              ret=ft.ret, names=ft.names, kind=ft.fi.kind,
+                              cls=ft.fi.cls.cid if ft.fi.cls else None,
+                              line=ft.fi.node.lineno, module=ft.fi.module)
+        S, sols = {}, {}
+        for fid in order:
+            sm, sol = summary_of(S, funcs[fid])
+            if sm is not None:
+                S[fid] = sm
+                sols[fid] = sol
+        # slot classification: private unless some method may make it hold / reference caller memory
+        new = {}
+        for fid in order:
+            ft, f = fts[fid], funcs[fid]
+            if not ft.slotroot or fid not in sols:
+                continue
+            pt, cont = sols[fid]
+            prot = {ft.modroot} | {v for fm in ft.f_formals[1:-2] for v in fm}
+            for attr, (sname, root) in ft.slotroot.items():
+                d = new.setdefault(sname, dict(private=True, tags=set()))
+                reach = set(pt.get(root, set()))
+                for o in list(reach):
+                    reach |= cont.get(o, set())
+                if reach & prot:
+                    d['private'] = False
+            for sname, v in ft.slot_writes:
+                new[sname]['tags'].add(ft.tag(v))
+        info = {}
+        for sname, d in new.items():
+            info[sname] = dict(private=d['private'], tag='val' if d['tags'] == {'val'} else None)
+        if info == slotinfo:
+            return dict(prog=prog, fts=fts, funcs=funcs, order=order, S=S, sols=sols, slotinfo=info,
+                        util_lists=util_lists)
+        slotinfo = info
+    raise Unsupported("slot classification did not stabilise")
